@@ -47,7 +47,14 @@ CFG = dict(
          "a Polars second series} x Polars inputs (1, 2, 3 chunks, by reference, a slice of a longer array) x outputs "
          "(Vec, Float64Chunked, Vec<Option<f64>>, VecDeque, Array1 returned; Vec caller buffer) and Vec / VecDeque / "
          "reversed ndarray view / option view -> Float64Chunked, each equal to the Vec->Vec reference bit for bit; the "
-         "caller-buffer path into a Polars buffer must panic (documented unimplemented) unless there is nothing to write.",
+         "caller-buffer path into a Polars buffer must panic (documented unimplemented) unless there is nothing to write. "
+         "part=valid (same containers, ndarray base memory with NaNs of both signs): vget(0..=len), uvget(0..len), to_opt_iter, "
+         "iter_cast::<f64|i32>, opt_iter_cast::<f64|i32> compared exactly with valid_get / the element-wise models over the "
+         "container model's own get. part=mut (every Vec1Mut container: Vec, VecDeque in every ring layout, Array1, ArrayViewMut1 "
+         "with step in {1,2,3,-1,-2} x two offsets): for every i a marker is written through get_mut(i) (0..=len, None beyond), "
+         "uget_mut(i) and try_as_slice_mut()[i] (Null when not offered, else slice length and every index), the whole sequence is "
+         "re-observed with titer() after each write and compared with the model's set (ring: buf[(head+i) mod cap]; strided: "
+         "base[off+i*step]; slice: buf[head+k] / base[off+k]); the element is restored through the same accessor.",
     theorem_hint="Props/C07.v",
     level_text="Proof: the accessor laws of the container models (ring buffer = VecDeque, strided view = ndarray, chunked array "
                "with validity = Polars, Arc, option view): checked get, iteration, length, slicing and the contiguous-slice view "
@@ -62,7 +69,13 @@ CFG = dict(
                "generic caller-buffer result for every window >= 1, callback and series (and any window through lift_uninit), "
                "the slice form equals the default iterator path collected into an array, and every rolling feature staged into "
                "Polars equals either body collected into Polars. Before the repair the staged path panicked (refuted on "
-               "w=1, xs=[x]: see notes/C07.md). All model functions are functions of that logical sequence by construction. The container "
+               "w=1, xs=[x]: see notes/C07.md). "
+               "Mutable accessors (34 further theorems): a write through get_mut / uget_mut at logical index i is "
+               "`update (to_list c) i v` for the ring buffer (any head offset) and the strided view (any non-zero stride), rejected "
+               "out of range, preserves well-formedness and layout, get-after-set laws; try_as_slice_mut is offered exactly when "
+               "try_as_slice is and a write through it at k IS the logical write at k (so a reversed view offers no mutable "
+               "slice; the memory-order variant is refuted with a witness); vget = get then to_opt on every container, position i "
+               "of to_opt_iter is vget(i), opt_iter_cast = cast after to_opt_iter, iter_cast = cast after get. All model functions are functions of that logical sequence by construction. The container "
                "semantics of std/ndarray/Polars are modelled; the tie is the accessor correspondence plus the exhaustive "
                "backend x container x path matrix run on the implementation.",
     level_note="Trusted: Coq kernel; the container models (std VecDeque, ndarray views, Polars chunked arrays are external "
